@@ -23,7 +23,7 @@ from ..realmode import Domain, prune, quantile_hook
 from ..statsmodel import by_ref
 from ..symex import Summarizer, Unsupported
 from ..types import RESULT
-from ..zones import linearize, holds, box_bound, points, NotLinear
+from ..zones import linearize, holds, box_bound, points, NotLinear, sat, lin
 
 PID = 'C02'
 N, K, L = T.sym('n'), T.sym('k'), T.sym('L')
@@ -129,31 +129,38 @@ def producer(chk, facts, nf, im, cm, fn, method, label, sfx, subst=None, make_ar
         if und:
             chk.ob(key + ':domain', 'zones', label, None, 'undecided: ' + und, where)
             continue
-        try:
-            B = box_bound([l for _, lins, _ in rows for l in lins], extra_consts=(2, 10))
-        except NotLinear as e:
-            chk.ob(key + ':domain', 'zones', label, None, 'undecided: %s' % e, where)
-            continue
+        lim = 2 if method == 'wilson' else 10
+        regions = [
+            ('InvalidSuccesses', [lin({'n': 1, 'k': -1}, 0, '<')]),                                            # k > n
+            ('TooFewSuccesses', [lin({'k': 1, 'n': -1}, 0, '<='), lin({'k': 1}, -lim, '<')]),                # k <= n, k < lim
+            ('TooFewFailures', [lin({'k': 1, 'n': -1}, 0, '<='), lin({'k': -1}, lim, '<='), lin({'n': 1, 'k': -1}, -lim, '<')]),
+            ('ok', [lin({'k': -1}, lim, '<='), lin({'n': -1, 'k': 1}, lim, '<=')]),                           # k >= lim, n - k >= lim
+        ]
+        base = [lin({'n': -1}, 1, '<=')]   # n >= 1 (n = 0 is the degenerate input handled under C11)
         bad = None
         ncell = 0
         ok_rows = set()
-        for pt in points(['n', 'k'], B):
-            if pt['n'] < 1:
-                continue  # n = 0 is the degenerate input handled under C11
-            ncell += 1
-            want = classify_region(method, pt)
-            hits = [i for i, (p, lins, other) in enumerate(rows) if all(holds(l, pt) for l in lins)]
-            if not hits and bad is None:
-                bad = 'no path covers n=%d k=%d' % (pt['n'], pt['k'])
-            for i in hits:
-                p = rows[i][0]
-                ev = err_variant(facts, p.ret) if p.is_ret() else 'panic'
-                got = ev if ev in ('InvalidSuccesses', 'TooFewSuccesses', 'TooFewFailures') else ('panic' if p.is_panic() else 'ok')
-                if got == 'ok':
-                    ok_rows.add(i)
-                if got != want and bad is None:
-                    bad = 'for n=%d k=%d the outcome is %s, documented: %s' % (pt['n'], pt['k'], got, want)
-        chk.ob(key + ':domain', 'zones', '%s(%s) accepts exactly its documented domain (all %d zone cells of the guard arrangement)' % (label, kname, ncell),
+        try:
+            for want, rcons in regions:
+                covered = False
+                for i, (p, lins, other) in enumerate(rows):
+                    if not sat(base + rcons + lins):
+                        continue
+                    covered = True
+                    ncell += 1
+                    ev = err_variant(facts, p.ret) if p.is_ret() else 'panic'
+                    got = ev if ev in ('InvalidSuccesses', 'TooFewSuccesses', 'TooFewFailures') else ('panic' if p.is_panic() else 'ok')
+                    if got == 'ok':
+                        ok_rows.add(i)
+                    if got != want and bad is None:
+                        bad = 'in the region documented as %s some inputs give %s (path guard: %s)' % (want, got, [('' if pol else '!') + T.show(a)[:60] for a, pol in p.guard if a[0] != 'variant'][:4])
+                if not covered and bad is None:
+                    bad = 'no path covers the region documented as %s' % want
+        except NotLinear as e:
+            chk.ob(key + ':domain', 'zones', label, None, 'undecided: %s' % e, where)
+            continue
+        B = 'exact'
+        chk.ob(key + ':domain', 'zones', '%s(%s) accepts exactly its documented domain (%d satisfiable path x region pairs, exact zone satisfiability)' % (label, kname, ncell),
                bad is None, bad or '', where, sample={'fn': label, 'kind': kname, 'cells': ncell, 'box': B})
         # formula + kind on the accepted region
         probs = []
@@ -491,20 +498,25 @@ def run_cfg(chk, facts, cfg):
                 lins = [linearize(nf, a, pol, ('n', 'k'), positive=('n',)) for a, pol in p.guard]
                 ret = p.ret
                 rows.append((p, lins, ret))
-            B = box_bound([l for _, lins, _ in rows for l in lins], extra_consts=(30, 5))
             bad = None
-            for pt in points(['n', 'k'], B):
-                if pt['k'] > pt['n']:
-                    continue  # k > n is invalid input (C11)
-                want = pt['n'] > 30 and pt['k'] > 5 and pt['n'] - pt['k'] > 5
-                for p, lins, ret in rows:
-                    if all(holds(l, pt) for l in lins):
-                        if ret[0] == 'bool':
-                            got = ret[1]
-                        else:
-                            got = holds(linearize(nf, *_lit(ret), ('n', 'k'), positive=('n',)), pt)
-                        if got != want and bad is None:
-                            bad = 'n=%d k=%d: %s, documented %s' % (pt['n'], pt['k'], got, want)
+            valid = [lin({'k': 1, 'n': -1}, 0, '<=')]          # k <= n (k > n is invalid input, C11)
+            want_true = [lin({'n': -1}, 31, '<='), lin({'k': -1}, 6, '<='), lin({'n': -1, 'k': 1}, 6, '<=')]
+            want_false_alts = [[lin({'n': 1}, -30, '<=')], [lin({'k': 1}, -5, '<=')], [lin({'n': 1, 'k': -1}, -5, '<=')]]
+            for p, lins, ret in rows:
+                if ret[0] == 'bool':
+                    t_alts, f_alts = ([[]], []) if ret[1] else ([], [[]])
+                else:
+                    t_alts = [[linearize(nf, *_lit(ret), ('n', 'k'), positive=('n',))]]
+                    a_, pol_ = _lit(ret)
+                    f_alts = [[linearize(nf, a_, not pol_, ('n', 'k'), positive=('n',))]]
+                # returns true somewhere the documented predicate is false?
+                for ta in t_alts:
+                    for wf in want_false_alts:
+                        if sat(valid + lins + ta + wf) and bad is None:
+                            bad = 'returns true for some (n, k) outside n > 30, k > 5, n-k > 5 (path %s)' % [('' if pol else '!') + T.show(a)[:40] for a, pol in p.guard][:3]
+                for fa in f_alts:
+                    if sat(valid + lins + fa + want_true) and bad is None:
+                        bad = 'returns false for some (n, k) with n > 30, k > 5, n-k > 5'
             chk.ob('%s:%s%s' % (PID, label, sfx), 'zones', '%s is n > 30 and k > 5 and n-k > 5 on every zone cell' % label, bad is None, bad or '', where)
         except (Unsupported, NotLinear, NotReal) as e:
             chk.ob('%s:%s%s' % (PID, label, sfx), 'zones', label, None, 'undecided: %s' % e, where)
